@@ -1,13 +1,17 @@
 /-
-  I3.Lemmas.Limbs — arithmetic of the translated BN254 limb kernels (I3.Gen.FFLimbs).
-  Two kinds of lemma:
-   * structural (`…_eq`, by `rfl`): the generated definition is the composition of smaller
-     generated/hand-named pieces (carry chain, CIOS round, final conditional subtraction);
-   * arithmetic (by `omega` over the closed forms of the word primitives).
+  I3.Lemmas.Limbs — arithmetic of the translated BN254 limb kernels (I3.Gen.FFLimbs, package `ff`).
+
+  Method.  The word primitives are abstracted by relational specifications (`add64_spec`, `sub64_spec`,
+  `madd*_spec`: "∃ outputs, call = outputs ∧ linear relation"), the generated straight-line code is
+  executed symbolically on the named outputs by `limb_eval` (I3.Lemmas.LimbTac), and the arithmetic is
+  done by `omega` in small stand-alone lemmas over the named values (`add_chain`, `sub_chain`,
+  `round_lin`, …) — omega is fast on a handful of linear facts and hopeless on the inlined let-chains.
+  Aliasing variants (`_zx`, `_zy`, `_xy`, `_zxy`) are equal to the base kernels by `rfl`.
 -/
 import I3.Gen.FFLimbs
-import Mathlib.Tactic.SplitIfs
+import I3.Lemmas.LimbTac
 import Mathlib.Tactic.Ring
+import Mathlib.Tactic.LinearCombination
 namespace I3.Limbs
 open I3.Word I3.Gen.FF
 
@@ -15,46 +19,70 @@ def Q : Nat := 21888242871839275222246405745257275088548364400416034343698204186
 def R : Nat := W ^ 4
 def val4 (a b c d : Nat) : Nat := a + b * W + c * W ^ 2 + d * W ^ 3
 
-/-- the borrow-out written arithmetically in `sub64` is the comparison. -/
-theorem sub64_borrow (a b c : Nat) (ha : a < W) (hb : b < W) (hc : c ≤ 1) :
-    (sub64 a b c).2 = if a < b + c then 1 else 0 := by
-  simp only [sub64, W] at *
-  split <;> omega
+theorem val4_lt (a b c d : Nat) (ha : a < W) (hb : b < W) (hc : c < W) (hd : d < W) :
+    val4 a b c d < R := by
+  simp only [val4, R, W] at *; omega
 
-theorem sub64_diff (a b c : Nat) (ha : a < W) (hb : b < W) (hc : c ≤ 1) :
-    ((sub64 a b c).1 : Int) = ((a : Int) - b - c) % (W : Int) := by
-  simp only [sub64, W] at *
-  omega
+/-- a four-limb carry chain adds -/
+theorem add_chain (x0 x1 x2 x3 y0 y1 y2 y3 s0 s1 s2 s3 k0 k1 k2 k3 c : Nat)
+    (f0 : s0 + k0 * W = x0 + y0 + c) (f1 : s1 + k1 * W = x1 + y1 + k0)
+    (f2 : s2 + k2 * W = x2 + y2 + k1) (f3 : s3 + k3 * W = x3 + y3 + k2) :
+    val4 s0 s1 s2 s3 + k3 * R = val4 x0 x1 x2 x3 + val4 y0 y1 y2 y3 + c := by
+  simp only [val4, R, W] at *; omega
 
-/-- the limb-wise comparison chain of the generated code is `q ≤ value`. -/
+/-- a four-limb borrow chain subtracts -/
+theorem sub_chain (x0 x1 x2 x3 y0 y1 y2 y3 d0 d1 d2 d3 k0 k1 k2 k3 c : Nat)
+    (f0 : d0 + y0 + c = x0 + k0 * W) (f1 : d1 + y1 + k0 = x1 + k1 * W)
+    (f2 : d2 + y2 + k1 = x2 + k2 * W) (f3 : d3 + y3 + k2 = x3 + k3 * W) :
+    val4 d0 d1 d2 d3 + val4 y0 y1 y2 y3 + c = val4 x0 x1 x2 x3 + k3 * R := by
+  simp only [val4, R, W] at *; omega
+
+theorem val4_Q : val4 4891460686036598785 2896914383306846353 13281191951274694749 3486998266802970665 = Q := by
+  decide
+
+
 theorem lex_ge_iff (z0 z1 z2 z3 : Nat) (h0 : z0 < W) (h1 : z1 < W) (h2 : z2 < W) (h3 : z3 < W) :
     (!((decide (z3 < 3486998266802970665) || ((decide (z3 = 3486998266802970665) && ((decide (z2 < 13281191951274694749) || ((decide (z2 = 13281191951274694749) && ((decide (z1 < 2896914383306846353) || ((decide (z1 = 2896914383306846353) && (decide (z0 < 4891460686036598785))))))))))))))) = true
       ↔ Q ≤ val4 z0 z1 z2 z3 := by
   simp only [Bool.not_eq_true', Bool.or_eq_false_iff, Bool.and_eq_false_iff, decide_eq_false_iff_not, val4, Q, W] at *
   omega
 
-/-- final conditional subtraction: canonical representative of anything below 2q. -/
+/-- the conditional subtraction `if q ≤ z then z - q else z`, as a relation between limbs -/
 theorem reduce_ok (z0 z1 z2 z3 : Nat)
     (h0 : z0 < W) (h1 : z1 < W) (h2 : z2 < W) (h3 : z3 < W) (h : val4 z0 z1 z2 z3 < 2 * Q) :
     ∃ r0 r1 r2 r3, reduceGeneric z0 z1 z2 z3 = (r0, r1, r2, r3) ∧
       r0 < W ∧ r1 < W ∧ r2 < W ∧ r3 < W ∧ val4 r0 r1 r2 r3 = val4 z0 z1 z2 z3 % Q := by
-  unfold reduceGeneric
   by_cases hq : Q ≤ val4 z0 z1 z2 z3
-  · rw [if_pos ((lex_ge_iff _ _ _ _ h0 h1 h2 h3).2 hq)]
-    simp only [sub64, val4, Q, W] at *
-    refine ⟨_, _, _, _, rfl, ?_, ?_, ?_, ?_, ?_⟩ <;> omega
-  · rw [if_neg (fun hc => hq ((lex_ge_iff _ _ _ _ h0 h1 h2 h3).1 hc))]
+  · have hc := (lex_ge_iff z0 z1 z2 z3 h0 h1 h2 h3).2 hq
+    obtain ⟨d0, k0, e0, hd0, hk0, f0⟩ := sub64_spec z0 4891460686036598785 0 h0 (by decide) (by decide)
+    obtain ⟨d1, k1, e1, hd1, hk1, f1⟩ := sub64_spec z1 2896914383306846353 k0 h1 (by decide) hk0
+    obtain ⟨d2, k2, e2, hd2, hk2, f2⟩ := sub64_spec z2 13281191951274694749 k1 h2 (by decide) hk1
+    obtain ⟨d3, k3, e3, hd3, hk3, f3⟩ := sub64_spec z3 3486998266802970665 k2 h3 (by decide) hk2
+    refine ⟨d0, d1, d2, d3, by limb_eval [reduceGeneric], hd0, hd1, hd2, hd3, ?_⟩
     simp only [val4, Q, W] at *
-    refine ⟨_, _, _, _, rfl, ?_, ?_, ?_, ?_, ?_⟩ <;> omega
+    omega
+  · have hc := fun hc => hq ((lex_ge_iff z0 z1 z2 z3 h0 h1 h2 h3).1 hc)
+    refine ⟨z0, z1, z2, z3, by limb_eval [reduceGeneric], h0, h1, h2, h3, ?_⟩
+    simp only [val4, Q, W] at *
+    omega
 
-/-! ### add / double -/
+/-- the limb-wise comparison `q ≤ z` exactly as the translator prints it -/
+def geQ (z0 z1 z2 z3 : Nat) : Bool :=
+  (!((decide (z3 < 3486998266802970665) || ((decide (z3 = 3486998266802970665) && ((decide (z2 < 13281191951274694749) || ((decide (z2 = 13281191951274694749) && ((decide (z1 < 2896914383306846353) || ((decide (z1 = 2896914383306846353) && (decide (z0 < 4891460686036598785)))))))))))))))
 
-/-- structure of the generated addition: carry chain, then the final conditional subtraction. -/
-theorem add_eq (z0 z1 z2 z3 x0 x1 x2 x3 y0 y1 y2 y3 : Nat) :
-    addGeneric z0 z1 z2 z3 x0 x1 x2 x3 y0 y1 y2 y3 =
-      reduceGeneric (add64 x0 y0 0).1 (add64 x1 y1 (add64 x0 y0 0).2).1
-        (add64 x2 y2 (add64 x1 y1 (add64 x0 y0 0).2).2).1
-        (add64 x3 y3 (add64 x2 y2 (add64 x1 y1 (add64 x0 y0 0).2).2).2).1 := rfl
+/-- closes `f … = reduceGeneric s0 s1 s2 s3` when `f` ends with the inlined final subtraction applied
+to `s0 … s3` (the values of all earlier steps being given by equations in the context) -/
+macro "limb_reduce_eq" "[" ids:ident,* "]" s0:term:max s1:term:max s2:term:max s3:term:max : tactic =>
+  `(tactic| (
+    by_cases hc : geQ $s0 $s1 $s2 $s3 = true
+    · unfold geQ at hc
+      rcases hd0 : sub64 $s0 4891460686036598785 0 with ⟨d0, k0⟩
+      rcases hd1 : sub64 $s1 2896914383306846353 k0 with ⟨d1, k1⟩
+      rcases hd2 : sub64 $s2 13281191951274694749 k1 with ⟨d2, k2⟩
+      rcases hd3 : sub64 $s3 3486998266802970665 k2 with ⟨d3, k3⟩
+      limb_eval [reduceGeneric, $ids,*]
+    · unfold geQ at hc
+      limb_eval [reduceGeneric, $ids,*]))
 
 theorem add_ok (z0 z1 z2 z3 x0 x1 x2 x3 y0 y1 y2 y3 : Nat)
     (hx0 : x0 < W) (hx1 : x1 < W) (hx2 : x2 < W) (hx3 : x3 < W)
@@ -63,18 +91,17 @@ theorem add_ok (z0 z1 z2 z3 x0 x1 x2 x3 y0 y1 y2 y3 : Nat)
     ∃ r0 r1 r2 r3, addGeneric z0 z1 z2 z3 x0 x1 x2 x3 y0 y1 y2 y3 = (r0, r1, r2, r3) ∧
       r0 < W ∧ r1 < W ∧ r2 < W ∧ r3 < W ∧
       val4 r0 r1 r2 r3 = (val4 x0 x1 x2 x3 + val4 y0 y1 y2 y3) % Q := by
-  rw [add_eq]
-  have key : ∃ s0 s1 s2 s3, (add64 x0 y0 0).1 = s0 ∧ (add64 x1 y1 (add64 x0 y0 0).2).1 = s1 ∧
-      (add64 x2 y2 (add64 x1 y1 (add64 x0 y0 0).2).2).1 = s2 ∧
-      (add64 x3 y3 (add64 x2 y2 (add64 x1 y1 (add64 x0 y0 0).2).2).2).1 = s3 ∧
-      s0 < W ∧ s1 < W ∧ s2 < W ∧ s3 < W ∧
-      val4 s0 s1 s2 s3 = val4 x0 x1 x2 x3 + val4 y0 y1 y2 y3 := by
-    refine ⟨_, _, _, _, rfl, rfl, rfl, rfl, ?_, ?_, ?_, ?_, ?_⟩ <;>
-      (simp only [add64, val4, Q, W] at *; omega)
-  obtain ⟨s0, s1, s2, s3, e0, e1, e2, e3, h0, h1, h2, h3, hv⟩ := key
-  rw [e0, e1, e2, e3]
-  obtain ⟨r0, r1, r2, r3, he, g0, g1, g2, g3, hr⟩ := reduce_ok s0 s1 s2 s3 h0 h1 h2 h3 (by omega)
-  exact ⟨r0, r1, r2, r3, he, g0, g1, g2, g3, by rw [hr, hv]⟩
+  obtain ⟨s0, k0, e0, hs0, hk0, f0⟩ := add64_spec x0 y0 0 hx0 hy0 (by decide)
+  obtain ⟨s1, k1, e1, hs1, hk1, f1⟩ := add64_spec x1 y1 k0 hx1 hy1 hk0
+  obtain ⟨s2, k2, e2, hs2, hk2, f2⟩ := add64_spec x2 y2 k1 hx2 hy2 hk1
+  obtain ⟨s3, k3, e3, hs3, hk3, f3⟩ := add64_spec x3 y3 k2 hx3 hy3 hk2
+  have hE : addGeneric z0 z1 z2 z3 x0 x1 x2 x3 y0 y1 y2 y3 = reduceGeneric s0 s1 s2 s3 := by
+    limb_reduce_eq [addGeneric] s0 s1 s2 s3
+  have hv : val4 s0 s1 s2 s3 = val4 x0 x1 x2 x3 + val4 y0 y1 y2 y3 := by
+    simp only [val4, Q, W] at *; omega
+  obtain ⟨r0, r1, r2, r3, he, g0, g1, g2, g3, hr⟩ :=
+    reduce_ok s0 s1 s2 s3 hs0 hs1 hs2 hs3 (by omega)
+  exact ⟨r0, r1, r2, r3, hE.trans he, g0, g1, g2, g3, by rw [hr, hv]⟩
 
 theorem double_eq (z0 z1 z2 z3 x0 x1 x2 x3 : Nat) :
     doubleGeneric z0 z1 z2 z3 x0 x1 x2 x3 = addGeneric z0 z1 z2 z3 x0 x1 x2 x3 x0 x1 x2 x3 := rfl
@@ -85,9 +112,7 @@ theorem double_ok (z0 z1 z2 z3 x0 x1 x2 x3 : Nat)
       r0 < W ∧ r1 < W ∧ r2 < W ∧ r3 < W ∧
       val4 r0 r1 r2 r3 = (2 * val4 x0 x1 x2 x3) % Q := by
   rw [double_eq, two_mul]
-  exact add_ok _ _ _ _ _ _ _ _ _ _ _ _ hx0 hx1 hx2 hx3 hx0 hx1 hx2 hx3 hx hx
-
-/-! ### sub / neg -/
+  exact add_ok z0 z1 z2 z3 x0 x1 x2 x3 x0 x1 x2 x3 hx0 hx1 hx2 hx3 hx0 hx1 hx2 hx3 hx hx
 
 theorem sub_ok (z0 z1 z2 z3 x0 x1 x2 x3 y0 y1 y2 y3 : Nat)
     (hx0 : x0 < W) (hx1 : x1 < W) (hx2 : x2 < W) (hx3 : x3 < W)
@@ -96,28 +121,543 @@ theorem sub_ok (z0 z1 z2 z3 x0 x1 x2 x3 y0 y1 y2 y3 : Nat)
     ∃ r0 r1 r2 r3, subGeneric z0 z1 z2 z3 x0 x1 x2 x3 y0 y1 y2 y3 = (r0, r1, r2, r3) ∧
       r0 < W ∧ r1 < W ∧ r2 < W ∧ r3 < W ∧
       val4 r0 r1 r2 r3 = (val4 x0 x1 x2 x3 + (Q - val4 y0 y1 y2 y3)) % Q := by
-  simp only [subGeneric, add64, sub64, val4, Q, W] at *
-  split_ifs with hb
-  · simp only [decide_eq_true_eq] at hb
-    refine ⟨_, _, _, _, rfl, ?_, ?_, ?_, ?_, ?_⟩ <;> omega
-  · simp only [decide_eq_true_eq] at hb
-    refine ⟨_, _, _, _, rfl, ?_, ?_, ?_, ?_, ?_⟩ <;> omega
-
+  obtain ⟨d0, k0, e0, hd0, hk0, f0⟩ := sub64_spec x0 y0 0 hx0 hy0 (by decide)
+  obtain ⟨d1, k1, e1, hd1, hk1, f1⟩ := sub64_spec x1 y1 k0 hx1 hy1 hk0
+  obtain ⟨d2, k2, e2, hd2, hk2, f2⟩ := sub64_spec x2 y2 k1 hx2 hy2 hk1
+  obtain ⟨d3, k3, e3, hd3, hk3, f3⟩ := sub64_spec x3 y3 k2 hx3 hy3 hk2
+  have hD := val4_lt d0 d1 d2 d3 hd0 hd1 hd2 hd3
+  have key := sub_chain x0 x1 x2 x3 y0 y1 y2 y3 d0 d1 d2 d3 k0 k1 k2 k3 0 f0 f1 f2 f3
+  by_cases hb : k3 = 0
+  · refine ⟨d0, d1, d2, d3, by limb_eval [subGeneric], hd0, hd1, hd2, hd3, ?_⟩
+    generalize val4 d0 d1 d2 d3 = D at *
+    generalize val4 x0 x1 x2 x3 = X at *
+    generalize val4 y0 y1 y2 y3 = Y at *
+    simp only [Q, R, W] at *; omega
+  · obtain ⟨s0, c0, a0, hs0, hc0, g0⟩ := add64_spec d0 4891460686036598785 0 hd0 (by decide) (by decide)
+    obtain ⟨s1, c1, a1, hs1, hc1, g1⟩ := add64_spec d1 2896914383306846353 c0 hd1 (by decide) hc0
+    obtain ⟨s2, c2, a2, hs2, hc2, g2⟩ := add64_spec d2 13281191951274694749 c1 hd2 (by decide) hc1
+    obtain ⟨s3, c3, a3, hs3, hc3, g3⟩ := add64_spec d3 3486998266802970665 c2 hd3 (by decide) hc2
+    refine ⟨s0, s1, s2, s3, by limb_eval [subGeneric], hs0, hs1, hs2, hs3, ?_⟩
+    have hS := val4_lt s0 s1 s2 s3 hs0 hs1 hs2 hs3
+    have key2 := add_chain d0 d1 d2 d3 _ _ _ _ s0 s1 s2 s3 c0 c1 c2 c3 0 g0 g1 g2 g3
+    rw [val4_Q] at key2
+    generalize val4 s0 s1 s2 s3 = S at *
+    generalize val4 d0 d1 d2 d3 = D at *
+    generalize val4 x0 x1 x2 x3 = X at *
+    generalize val4 y0 y1 y2 y3 = Y at *
+    simp only [Q, R, W] at *; omega
 theorem neg_ok (z0 z1 z2 z3 x0 x1 x2 x3 : Nat)
     (hx0 : x0 < W) (hx1 : x1 < W) (hx2 : x2 < W) (hx3 : x3 < W) (hx : val4 x0 x1 x2 x3 < Q) :
     ∃ r0 r1 r2 r3, negGeneric z0 z1 z2 z3 x0 x1 x2 x3 = (r0, r1, r2, r3) ∧
       r0 < W ∧ r1 < W ∧ r2 < W ∧ r3 < W ∧
       val4 r0 r1 r2 r3 = (Q - val4 x0 x1 x2 x3) % Q := by
-  simp only [negGeneric]
-  by_cases hz : x0 = 0 ∧ x1 = 0 ∧ x2 = 0 ∧ x3 = 0
-  · obtain ⟨rfl, rfl, rfl, rfl⟩ := hz
-    simp [val4, Q]
-  · have hor : ¬ ((x0 ||| x1 ||| x2 ||| x3) = 0) := by
-      intro h
-      simp only [Nat.or_eq_zero_iff] at h
-      exact hz ⟨h.1.1.1, h.1.1.2, h.1.2, h.2⟩
-    rw [if_neg (by simpa using hor)]
-    simp only [sub64, val4, Q, W] at *
-    refine ⟨_, _, _, _, rfl, ?_, ?_, ?_, ?_, ?_⟩ <;> omega
+  by_cases hz : (x0 ||| x1 ||| x2 ||| x3) = 0
+  · refine ⟨0, 0, 0, 0, by limb_eval [negGeneric], by decide, by decide, by decide, by decide, ?_⟩
+    simp only [Nat.or_eq_zero_iff] at hz
+    obtain ⟨⟨⟨rfl, rfl⟩, rfl⟩, rfl⟩ := hz
+    decide
+  · have hnz : 0 < val4 x0 x1 x2 x3 := by
+      rcases Nat.eq_zero_or_pos (val4 x0 x1 x2 x3) with h | h
+      · exfalso; apply hz
+        have : x0 = 0 ∧ x1 = 0 ∧ x2 = 0 ∧ x3 = 0 := by
+          simp only [val4, W] at h; omega
+        obtain ⟨rfl, rfl, rfl, rfl⟩ := this; rfl
+      · exact h
+    obtain ⟨d0, k0, e0, hd0, hk0, f0⟩ := sub64_spec 4891460686036598785 x0 0 (by decide) hx0 (by decide)
+    obtain ⟨d1, k1, e1, hd1, hk1, f1⟩ := sub64_spec 2896914383306846353 x1 k0 (by decide) hx1 hk0
+    obtain ⟨d2, k2, e2, hd2, hk2, f2⟩ := sub64_spec 13281191951274694749 x2 k1 (by decide) hx2 hk1
+    obtain ⟨d3, k3, e3, hd3, hk3, f3⟩ := sub64_spec 3486998266802970665 x3 k2 (by decide) hx3 hk2
+    refine ⟨d0, d1, d2, d3, by limb_eval [negGeneric], hd0, hd1, hd2, hd3, ?_⟩
+    have hD := val4_lt d0 d1 d2 d3 hd0 hd1 hd2 hd3
+    have key := sub_chain _ _ _ _ x0 x1 x2 x3 d0 d1 d2 d3 k0 k1 k2 k3 0 f0 f1 f2 f3
+    rw [val4_Q] at key
+    generalize val4 d0 d1 d2 d3 = D at *
+    generalize val4 x0 x1 x2 x3 = X at *
+    simp only [Q, R, W] at *; omega
+
+theorem shr_or (a b : Nat) (ha : a < W) :
+    (a >>> 1) ||| ((b <<< 63) % W) = a / 2 + (b % 2) * 9223372036854775808 := by
+  have h1 : a >>> 1 = a / 2 := by rw [Nat.shiftRight_eq_div_pow]
+  have h2 : (b <<< 63) % W = (b % 2) * 9223372036854775808 := by
+    rw [Nat.shiftLeft_eq]; simp only [W]; omega
+  rw [h1, h2]
+  have ha2 : a / 2 < 2 ^ 63 := by simp only [W] at ha; omega
+  rcases Nat.mod_two_eq_zero_or_one b with hb | hb <;> rw [hb]
+  · simp
+  · have := Nat.two_pow_add_eq_or_of_lt ha2 1
+    rw [Nat.mul_one] at this
+    rw [Nat.one_mul, Nat.or_comm, show (9223372036854775808 : Nat) = 2 ^ 63 from rfl, ← this, Nat.add_comm]
+
+theorem shr_one (a : Nat) : a >>> 1 = a / 2 := by rw [Nat.shiftRight_eq_div_pow]
+
+/-- arithmetic of the limb-wise right shift by one bit -/
+theorem shr_chain (a0 a1 a2 a3 : Nat) :
+    2 * val4 (a0 / 2 + (a1 % 2) * 9223372036854775808) (a1 / 2 + (a2 % 2) * 9223372036854775808)
+      (a2 / 2 + (a3 % 2) * 9223372036854775808) (a3 / 2) + a0 % 2 = val4 a0 a1 a2 a3 := by
+  simp only [val4, W]; omega
+
+theorem shr_limb_lt (a b : Nat) (ha : a < W) : a / 2 + b % 2 * 9223372036854775808 < W := by
+  simp only [W] at *; omega
+
+theorem halve_arith_odd (Z S H c b : Nat) (hz : Z < Q) (hodd : Z % 2 = 1)
+    (key : S + c * R = Z + Q + 0) (hS : S < R) (hsh : 2 * H + b = S) (hb : S % 2 = b) :
+    H < Q ∧ 2 * H % Q = Z := by
+  have hc : c = 0 := by simp only [Q, R, W] at *; omega
+  subst hc
+  have h2 : 2 * H = Z + Q := by simp only [Q] at *; omega
+  refine ⟨by omega, ?_⟩
+  rw [h2, Nat.add_mod_right, Nat.mod_eq_of_lt hz]
+
+theorem halve_arith_even (Z H b : Nat) (hz : Z < Q) (hev : Z % 2 = 0)
+    (hsh : 2 * H + b = Z) (hb : Z % 2 = b) : H < Q ∧ 2 * H % Q = Z := by
+  simp only [Q] at *; omega
+
+theorem halve_ok (z0 z1 z2 z3 : Nat)
+    (hz0 : z0 < W) (hz1 : z1 < W) (hz2 : z2 < W) (hz3 : z3 < W) (hz : val4 z0 z1 z2 z3 < Q) :
+    ∃ r0 r1 r2 r3, Halve z0 z1 z2 z3 = (r0, r1, r2, r3) ∧
+      r0 < W ∧ r1 < W ∧ r2 < W ∧ r3 < W ∧ val4 r0 r1 r2 r3 < Q ∧
+      (2 * val4 r0 r1 r2 r3) % Q = val4 z0 z1 z2 z3 := by
+  have hodd : val4 z0 z1 z2 z3 % 2 = z0 % 2 := by simp only [val4, W]; omega
+  by_cases hb : (z0 &&& 1) = 1
+  · obtain ⟨s0, c0, a0, hs0, hc0, g0⟩ := add64_spec z0 4891460686036598785 0 hz0 (by decide) (by decide)
+    obtain ⟨s1, c1, a1, hs1, hc1, g1⟩ := add64_spec z1 2896914383306846353 c0 hz1 (by decide) hc0
+    obtain ⟨s2, c2, a2, hs2, hc2, g2⟩ := add64_spec z2 13281191951274694749 c1 hz2 (by decide) hc1
+    obtain ⟨s3, c3, a3, hs3, hc3, g3⟩ := add64_spec z3 3486998266802970665 c2 hz3 (by decide) hc2
+    refine ⟨_, _, _, _, by limb_eval [Halve], ?_⟩
+    rw [shr_or s0 s1 hs0, shr_or s1 s2 hs1, shr_or s2 s3 hs2, shr_one]
+    have key := add_chain z0 z1 z2 z3 _ _ _ _ s0 s1 s2 s3 c0 c1 c2 c3 0 g0 g1 g2 g3
+    rw [val4_Q] at key
+    have hs0' : val4 s0 s1 s2 s3 % 2 = s0 % 2 := by simp only [val4, W]; omega
+    rw [Nat.and_one_is_mod] at hb
+    have hfin := halve_arith_odd _ _ _ _ _ hz (hodd.trans hb) key
+      (val4_lt s0 s1 s2 s3 hs0 hs1 hs2 hs3) (shr_chain s0 s1 s2 s3) hs0'
+    exact ⟨shr_limb_lt s0 s1 hs0, shr_limb_lt s1 s2 hs1, shr_limb_lt s2 s3 hs2,
+      by simp only [W] at *; omega, hfin.1, hfin.2⟩
+  · refine ⟨_, _, _, _, by limb_eval [Halve], ?_⟩
+    rw [shr_or z0 z1 hz0, shr_or z1 z2 hz1, shr_or z2 z3 hz2, shr_one]
+    rw [Nat.and_one_is_mod] at hb
+    have hfin := halve_arith_even _ _ _ hz (by omega) (shr_chain z0 z1 z2 z3) hodd
+    exact ⟨shr_limb_lt z0 z1 hz0, shr_limb_lt z1 z2 hz1, shr_limb_lt z2 z3 hz2,
+      by simp only [W] at *; omega, hfin.1, hfin.2⟩
+
+/-! ### Montgomery multiplication (CIOS) -/
+
+theorem madd0_spec (a b c : Nat) (ha : a < W) (hb : b < W) (hc : c < W) :
+    madd0 a b c < W ∧ ∃ lo, lo < W ∧ lo + madd0 a b c * W = a * b + c := by
+  have e1 : mul64 a b = (a * b / W, a * b % W) := rfl
+  have e2 : add64 (a * b % W) c 0 = ((a * b % W + c + 0) % W, (a * b % W + c + 0) / W) := rfl
+  have e3 : add64 (a * b / W) 0 ((a * b % W + c + 0) / W) =
+      ((a * b / W + 0 + (a * b % W + c + 0) / W) % W, (a * b / W + 0 + (a * b % W + c + 0) / W) / W) := rfl
+  have hE : madd0 a b c = (a * b / W + 0 + (a * b % W + c + 0) / W) % W := by limb_eval [madd0]
+  rw [hE]
+  have hp := mul_le_words a b ha hb
+  generalize a * b = p at *
+  refine ⟨?_, (p + c) % W, ?_, ?_⟩ <;> (simp only [W] at *; omega)
+
+theorem madd1_spec (a b c : Nat) (ha : a < W) (hb : b < W) (hc : c < W) :
+    ∃ hi lo, madd1 a b c = (hi, lo) ∧ hi < W ∧ lo < W ∧ lo + hi * W = a * b + c := by
+  have e1 : mul64 a b = (a * b / W, a * b % W) := rfl
+  have e2 : add64 (a * b % W) c 0 = ((a * b % W + c + 0) % W, (a * b % W + c + 0) / W) := rfl
+  have e3 : add64 (a * b / W) 0 ((a * b % W + c + 0) / W) =
+      ((a * b / W + 0 + (a * b % W + c + 0) / W) % W, (a * b / W + 0 + (a * b % W + c + 0) / W) / W) := rfl
+  refine ⟨_, _, by limb_eval [madd1], ?_⟩
+  have hp := mul_le_words a b ha hb
+  generalize a * b = p at *
+  refine ⟨?_, ?_, ?_⟩ <;> (simp only [W] at *; omega)
+
+theorem madd2_spec (a b c d : Nat) (ha : a < W) (hb : b < W) (hc : c < W) (hd : d < W) :
+    ∃ hi lo, madd2 a b c d = (hi, lo) ∧ hi < W ∧ lo < W ∧ lo + hi * W = a * b + c + d := by
+  have e1 : mul64 a b = (a * b / W, a * b % W) := rfl
+  have e2 : add64 c d 0 = ((c + d + 0) % W, (c + d + 0) / W) := rfl
+  have e3 : add64 (a * b / W) 0 ((c + d + 0) / W) =
+      ((a * b / W + 0 + (c + d + 0) / W) % W, (a * b / W + 0 + (c + d + 0) / W) / W) := rfl
+  have e4 : add64 (a * b % W) ((c + d + 0) % W) 0 =
+      ((a * b % W + (c + d + 0) % W + 0) % W, (a * b % W + (c + d + 0) % W + 0) / W) := rfl
+  have e5 : add64 ((a * b / W + 0 + (c + d + 0) / W) % W) 0 ((a * b % W + (c + d + 0) % W + 0) / W) =
+      (((a * b / W + 0 + (c + d + 0) / W) % W + 0 + (a * b % W + (c + d + 0) % W + 0) / W) % W,
+       ((a * b / W + 0 + (c + d + 0) / W) % W + 0 + (a * b % W + (c + d + 0) % W + 0) / W) / W) := rfl
+  refine ⟨_, _, by limb_eval [madd2], ?_⟩
+  have hp := mul_le_words a b ha hb
+  generalize a * b = p at *
+  refine ⟨?_, ?_, ?_⟩ <;> (simp only [W] at *; omega)
+
+theorem madd3_spec (a b c d e : Nat) (ha : a < W) (hb : b < W) (hc : c < W) (hd : d < W) (_he : e < W) :
+    ∃ hi lo h, madd3 a b c d e = (hi, lo) ∧ hi < W ∧ lo < W ∧ h < W ∧ lo + h * W = a * b + c + d ∧
+      hi = (h + e) % W := by
+  have e1 : mul64 a b = (a * b / W, a * b % W) := rfl
+  have e2 : add64 c d 0 = ((c + d + 0) % W, (c + d + 0) / W) := rfl
+  have e3 : add64 (a * b / W) 0 ((c + d + 0) / W) =
+      ((a * b / W + 0 + (c + d + 0) / W) % W, (a * b / W + 0 + (c + d + 0) / W) / W) := rfl
+  have e4 : add64 (a * b % W) ((c + d + 0) % W) 0 =
+      ((a * b % W + (c + d + 0) % W + 0) % W, (a * b % W + (c + d + 0) % W + 0) / W) := rfl
+  have e5 : add64 ((a * b / W + 0 + (c + d + 0) / W) % W) e ((a * b % W + (c + d + 0) % W + 0) / W) =
+      (((a * b / W + 0 + (c + d + 0) / W) % W + e + (a * b % W + (c + d + 0) % W + 0) / W) % W,
+       ((a * b / W + 0 + (c + d + 0) / W) % W + e + (a * b % W + (c + d + 0) % W + 0) / W) / W) := rfl
+  refine ⟨_, _, (a * b + c + d) / W, by limb_eval [madd3], ?_⟩
+  have hp := mul_le_words a b ha hb
+  generalize a * b = p at *
+  refine ⟨?_, ?_, ?_, ?_, ?_⟩ <;> (simp only [W] at *; omega)
+
+/-- the Montgomery factor `m = c·(−q⁻¹) mod 2^64` cancels the lowest word -/
+theorem mont_low_zero (c l k m : Nat) (hm : m = (c * 14042775128853446655) % W) (hl : l < W)
+    (A : l + k * W = m * 4891460686036598785 + c) : l = 0 := by
+  simp only [W] at *; omega
+
+theorem round_lin (p0 p1 p2 p3 t0 t1 t2 t3 m c0 c1 c2 a0 a1 b2 u0 a2 a3 b3 u1 a4 a5 h u2 : Nat)
+    (A1 : c0 + c1 * W = p0 + t0)
+    (A2 : 0 + c2 * W = m * 4891460686036598785 + c0)
+    (A3 : a0 + a1 * W = p1 + c1 + t1)
+    (A4 : u0 + b2 * W = m * 2896914383306846353 + c2 + a0)
+    (A5 : a2 + a3 * W = p2 + a1 + t2)
+    (A6 : u1 + b3 * W = m * 13281191951274694749 + b2 + a2)
+    (A7 : a4 + a5 * W = p3 + a3 + t3)
+    (A8 : u2 + h * W = m * 3486998266802970665 + a4 + b3) :
+    val4 u0 u1 u2 (h + a5) * W = val4 t0 t1 t2 t3 + val4 p0 p1 p2 p3 + m * Q := by
+  simp only [val4, Q, W] at *
+  omega
+
+theorem round_bound (U T P m Y : Nat) (h : U * W = T + P + m * Q) (hT : T < 2 * Q)
+    (hP : P ≤ (W - 1) * Y) (hY : Y < Q) (hm : m < W) : U < 2 * Q := by
+  have h1 : (W - 1) * Y ≤ (W - 1) * Q := Nat.mul_le_mul_left _ (by omega)
+  generalize (W - 1) * Y = Z at *
+  simp only [Q, W] at *
+  omega
+
+theorem val4_top_lt (a b c d : Nat) (h : val4 a b c d < 2 * Q) : d < W := by
+  simp only [val4, Q, W] at *; omega
+
+theorem val4_smul (v y0 y1 y2 y3 : Nat) :
+    val4 (v * y0) (v * y1) (v * y2) (v * y3) = v * val4 y0 y1 y2 y3 := by
+  simp only [val4]; ring
+
+/-- the reduction half of a CIOS round, given the multiplication half `c0 … a5` -/
+theorem round_core (v y0 y1 y2 y3 t0 t1 t2 t3 c0 c1 a0 a1 a2 a3 a4 a5 : Nat)
+    (hv : v < W) (hY : val4 y0 y1 y2 y3 < Q) (hT : val4 t0 t1 t2 t3 < 2 * Q)
+    (hc0 : c0 < W) (ha0 : a0 < W) (ha2 : a2 < W) (ha4 : a4 < W) (ha5 : a5 < W)
+    (A1 : c0 + c1 * W = v * y0 + t0) (A3 : a0 + a1 * W = v * y1 + c1 + t1)
+    (A5 : a2 + a3 * W = v * y2 + a1 + t2) (A7 : a4 + a5 * W = v * y3 + a3 + t3) :
+    ∃ b2 u0 b3 u1 u3 u2,
+      madd2 ((c0 * 14042775128853446655) % W) 2896914383306846353
+        (madd0 ((c0 * 14042775128853446655) % W) 4891460686036598785 c0) a0 = (b2, u0) ∧
+      madd2 ((c0 * 14042775128853446655) % W) 13281191951274694749 b2 a2 = (b3, u1) ∧
+      madd3 ((c0 * 14042775128853446655) % W) 3486998266802970665 a4 b3 a5 = (u3, u2) ∧
+      u0 < W ∧ u1 < W ∧ u2 < W ∧ u3 < W ∧ val4 u0 u1 u2 u3 < 2 * Q ∧
+      val4 u0 u1 u2 u3 * W =
+        val4 t0 t1 t2 t3 + v * val4 y0 y1 y2 y3 + ((c0 * 14042775128853446655) % W) * Q := by
+  have hm : (c0 * 14042775128853446655) % W < W := Nat.mod_lt _ (by decide)
+  generalize hmd : (c0 * 14042775128853446655) % W = m at *
+  obtain ⟨hc2, l0, hl0, A2⟩ := madd0_spec m 4891460686036598785 c0 hm (by decide) hc0
+  generalize madd0 m 4891460686036598785 c0 = c2 at *
+  obtain ⟨b2, u0, e4, hb2, hu0, A4⟩ := madd2_spec m 2896914383306846353 c2 a0 hm (by decide) hc2 ha0
+  obtain ⟨b3, u1, e6, hb3, hu1, A6⟩ := madd2_spec m 13281191951274694749 b2 a2 hm (by decide) hb2 ha2
+  obtain ⟨u3, u2, h, e8, hu3, hu2, hh, A8, A9⟩ :=
+    madd3_spec m 3486998266802970665 a4 b3 a5 hm (by decide) ha4 hb3 ha5
+  refine ⟨b2, u0, b3, u1, u3, u2, e4, e6, e8, hu0, hu1, hu2, hu3, ?_⟩
+  have hl : l0 = 0 := mont_low_zero c0 l0 c2 m hmd.symm hl0 A2
+  subst hl
+  have key := round_lin (v * y0) (v * y1) (v * y2) (v * y3) t0 t1 t2 t3 m c0 c1 c2 a0 a1 b2 u0 a2 a3 b3 u1
+    a4 a5 h u2 A1 A2 A3 A4 A5 A6 A7 A8
+  rw [val4_smul] at key
+  have hb := round_bound _ _ _ m _ key hT (Nat.mul_le_mul_right _ (by omega)) hY hm
+  have htop := val4_top_lt _ _ _ _ hb
+  have hu3' : u3 = h + a5 := by rw [A9]; exact Nat.mod_eq_of_lt htop
+  rw [hu3']
+  exact ⟨hb, key⟩
+
+/-- CIOS round `i ≥ 1` of the generated multiplication -/
+theorem round_spec (v y0 y1 y2 y3 t0 t1 t2 t3 : Nat)
+    (hv : v < W) (hy0 : y0 < W) (hy1 : y1 < W) (hy2 : y2 < W) (hy3 : y3 < W)
+    (ht0 : t0 < W) (ht1 : t1 < W) (ht2 : t2 < W) (ht3 : t3 < W)
+    (hY : val4 y0 y1 y2 y3 < Q) (hT : val4 t0 t1 t2 t3 < 2 * Q) :
+    ∃ c1 c0 a1 a0 b2 u0 a3 a2 b3 u1 a5 a4 u3 u2,
+      madd1 v y0 t0 = (c1, c0) ∧
+      madd2 v y1 c1 t1 = (a1, a0) ∧
+      madd2 ((c0 * 14042775128853446655) % W) 2896914383306846353
+        (madd0 ((c0 * 14042775128853446655) % W) 4891460686036598785 c0) a0 = (b2, u0) ∧
+      madd2 v y2 a1 t2 = (a3, a2) ∧
+      madd2 ((c0 * 14042775128853446655) % W) 13281191951274694749 b2 a2 = (b3, u1) ∧
+      madd2 v y3 a3 t3 = (a5, a4) ∧
+      madd3 ((c0 * 14042775128853446655) % W) 3486998266802970665 a4 b3 a5 = (u3, u2) ∧
+      u0 < W ∧ u1 < W ∧ u2 < W ∧ u3 < W ∧ val4 u0 u1 u2 u3 < 2 * Q ∧
+      ∃ m, m < W ∧ val4 u0 u1 u2 u3 * W = val4 t0 t1 t2 t3 + v * val4 y0 y1 y2 y3 + m * Q := by
+  obtain ⟨c1, c0, e1, hc1, hc0, A1⟩ := madd1_spec v y0 t0 hv hy0 ht0
+  obtain ⟨a1, a0, e3, ha1, ha0, A3⟩ := madd2_spec v y1 c1 t1 hv hy1 hc1 ht1
+  obtain ⟨a3, a2, e5, ha3, ha2, A5⟩ := madd2_spec v y2 a1 t2 hv hy2 ha1 ht2
+  obtain ⟨a5, a4, e7, ha5, ha4, A7⟩ := madd2_spec v y3 a3 t3 hv hy3 ha3 ht3
+  obtain ⟨b2, u0, b3, u1, u3, u2, e4, e6, e8, hu0, hu1, hu2, hu3, hb, key⟩ :=
+    round_core v y0 y1 y2 y3 t0 t1 t2 t3 c0 c1 a0 a1 a2 a3 a4 a5 hv hY hT hc0 ha0 ha2 ha4 ha5 A1 A3 A5 A7
+  exact ⟨c1, c0, a1, a0, b2, u0, a3, a2, b3, u1, a5, a4, u3, u2, e1, e3, e4, e5, e6, e7, e8,
+    hu0, hu1, hu2, hu3, hb, _, Nat.mod_lt _ (by decide), key⟩
+
+theorem val4_zero : val4 0 0 0 0 = 0 := by decide
+
+/-- CIOS round 0 (`t = 0`: `bits.Mul64` and `madd1` instead of `madd1` and `madd2`) -/
+theorem round0_spec (v y0 y1 y2 y3 : Nat)
+    (hv : v < W) (hy0 : y0 < W) (hy1 : y1 < W) (hy2 : y2 < W) (hy3 : y3 < W)
+    (hY : val4 y0 y1 y2 y3 < Q) :
+    ∃ c1 c0 a1 a0 b2 u0 a3 a2 b3 u1 a5 a4 u3 u2,
+      mul64 v y0 = (c1, c0) ∧
+      madd1 v y1 c1 = (a1, a0) ∧
+      madd2 ((c0 * 14042775128853446655) % W) 2896914383306846353
+        (madd0 ((c0 * 14042775128853446655) % W) 4891460686036598785 c0) a0 = (b2, u0) ∧
+      madd1 v y2 a1 = (a3, a2) ∧
+      madd2 ((c0 * 14042775128853446655) % W) 13281191951274694749 b2 a2 = (b3, u1) ∧
+      madd1 v y3 a3 = (a5, a4) ∧
+      madd3 ((c0 * 14042775128853446655) % W) 3486998266802970665 a4 b3 a5 = (u3, u2) ∧
+      u0 < W ∧ u1 < W ∧ u2 < W ∧ u3 < W ∧ val4 u0 u1 u2 u3 < 2 * Q ∧
+      ∃ m, m < W ∧ val4 u0 u1 u2 u3 * W = v * val4 y0 y1 y2 y3 + m * Q := by
+  have hp := mul_le_words v y0 hv hy0
+  have hc1 : v * y0 / W < W := by generalize v * y0 = p at *; simp only [W] at *; omega
+  have hc0 : v * y0 % W < W := Nat.mod_lt _ (by decide)
+  have A1 : v * y0 % W + v * y0 / W * W = v * y0 + 0 := by rw [Nat.add_zero]; exact Nat.mod_add_div' _ _
+  obtain ⟨a1, a0, e3, ha1, ha0, A3⟩ := madd1_spec v y1 (v * y0 / W) hv hy1 hc1
+  obtain ⟨a3, a2, e5, ha3, ha2, A5⟩ := madd1_spec v y2 a1 hv hy2 ha1
+  obtain ⟨a5, a4, e7, ha5, ha4, A7⟩ := madd1_spec v y3 a3 hv hy3 ha3
+  obtain ⟨b2, u0, b3, u1, u3, u2, e4, e6, e8, hu0, hu1, hu2, hu3, hb, key⟩ :=
+    round_core v y0 y1 y2 y3 0 0 0 0 (v * y0 % W) (v * y0 / W) a0 a1 a2 a3 a4 a5 hv hY
+      (by rw [val4_zero]; decide) hc0 ha0 ha2 ha4 ha5 A1 A3 A5 A7
+  rw [val4_zero, Nat.zero_add] at key
+  exact ⟨_, _, a1, a0, b2, u0, a3, a2, b3, u1, a5, a4, u3, u2, rfl, e3, e4, e5, e6, e7, e8,
+    hu0, hu1, hu2, hu3, hb, _, Nat.mod_lt _ (by decide), key⟩
+
+/-- four chained round equations give the Montgomery product -/
+theorem mont_chain (X0 X1 X2 X3 Y T1 T2 T3 T4 m0 m1 m2 m3 : Nat)
+    (E0 : T1 * W = X0 * Y + m0 * Q) (E1 : T2 * W = T1 + X1 * Y + m1 * Q)
+    (E2 : T3 * W = T2 + X2 * Y + m2 * Q) (E3 : T4 * W = T3 + X3 * Y + m3 * Q) :
+    T4 * R = val4 X0 X1 X2 X3 * Y + val4 m0 m1 m2 m3 * Q := by
+  simp only [val4, R]
+  linear_combination (W ^ 3) * E3 + (W ^ 2) * E2 + W * E1 + E0
+
+theorem mod_of_mont (T X M r : Nat) (h : T * R = X + M * Q) (hr : r = T % Q) :
+    (r * R) % Q = X % Q := by
+  rw [hr, Nat.mod_mul_mod, h, Nat.add_mul_mod_self_right]
+
+/-- Montgomery multiplication: `x` may be any four words, `y` canonical -/
+theorem mul_ok' (z0 z1 z2 z3 x0 x1 x2 x3 y0 y1 y2 y3 : Nat)
+    (hx0 : x0 < W) (hx1 : x1 < W) (hx2 : x2 < W) (hx3 : x3 < W)
+    (hy0 : y0 < W) (hy1 : y1 < W) (hy2 : y2 < W) (hy3 : y3 < W)
+    (hy : val4 y0 y1 y2 y3 < Q) :
+    ∃ r0 r1 r2 r3, mulGeneric z0 z1 z2 z3 x0 x1 x2 x3 y0 y1 y2 y3 = (r0, r1, r2, r3) ∧
+      r0 < W ∧ r1 < W ∧ r2 < W ∧ r3 < W ∧ val4 r0 r1 r2 r3 < Q ∧
+      (val4 r0 r1 r2 r3 * R) % Q = (val4 x0 x1 x2 x3 * val4 y0 y1 y2 y3) % Q := by
+  obtain ⟨c1, c0, a1, a0, b2, t0, a3, a2, b3, t1, a5, a4, t3, t2, e01, e02, e03, e04, e05, e06, e07,
+    ht0, ht1, ht2, ht3, hT1, m0, hm0, E0⟩ := round0_spec x0 y0 y1 y2 y3 hx0 hy0 hy1 hy2 hy3 hy
+  obtain ⟨c1', c0', a1', a0', b2', t0', a3', a2', b3', t1', a5', a4', t3', t2', e11, e12, e13, e14, e15,
+    e16, e17, ht0', ht1', ht2', ht3', hT2, m1, hm1, E1⟩ :=
+    round_spec x1 y0 y1 y2 y3 t0 t1 t2 t3 hx1 hy0 hy1 hy2 hy3 ht0 ht1 ht2 ht3 hy hT1
+  obtain ⟨c1'', c0'', a1'', a0'', b2'', t0'', a3'', a2'', b3'', t1'', a5'', a4'', t3'', t2'', e21, e22, e23,
+    e24, e25, e26, e27, ht0'', ht1'', ht2'', ht3'', hT3, m2, hm2, E2⟩ :=
+    round_spec x2 y0 y1 y2 y3 t0' t1' t2' t3' hx2 hy0 hy1 hy2 hy3 ht0' ht1' ht2' ht3' hy hT2
+  obtain ⟨d1, d0, f1, f0, g2, w0, f3, f2, g3, w1, f5, f4, w3, w2, e31, e32, e33,
+    e34, e35, e36, e37, hw0, hw1, hw2, hw3, hT4, m3, hm3, E3⟩ :=
+    round_spec x3 y0 y1 y2 y3 t0'' t1'' t2'' t3'' hx3 hy0 hy1 hy2 hy3 ht0'' ht1'' ht2'' ht3'' hy hT3
+  have hE : mulGeneric z0 z1 z2 z3 x0 x1 x2 x3 y0 y1 y2 y3 = reduceGeneric w0 w1 w2 w3 := by
+    limb_reduce_eq [mulGeneric] w0 w1 w2 w3
+  obtain ⟨r0, r1, r2, r3, he, g0, g1, g2', g3', hr⟩ := reduce_ok w0 w1 w2 w3 hw0 hw1 hw2 hw3 hT4
+  refine ⟨r0, r1, r2, r3, hE.trans he, g0, g1, g2', g3', ?_, ?_⟩
+  · rw [hr]; exact Nat.mod_lt _ (by decide)
+  · exact mod_of_mont _ _ _ _ (mont_chain x0 x1 x2 x3 _ _ _ _ _ m0 m1 m2 m3 E0 E1 E2 E3) hr
+
+theorem mul_ok (z0 z1 z2 z3 x0 x1 x2 x3 y0 y1 y2 y3 : Nat)
+    (hx0 : x0 < W) (hx1 : x1 < W) (hx2 : x2 < W) (hx3 : x3 < W)
+    (hy0 : y0 < W) (hy1 : y1 < W) (hy2 : y2 < W) (hy3 : y3 < W)
+    (_hx : val4 x0 x1 x2 x3 < Q) (hy : val4 y0 y1 y2 y3 < Q) :
+    ∃ r0 r1 r2 r3, mulGeneric z0 z1 z2 z3 x0 x1 x2 x3 y0 y1 y2 y3 = (r0, r1, r2, r3) ∧
+      r0 < W ∧ r1 < W ∧ r2 < W ∧ r3 < W ∧ val4 r0 r1 r2 r3 < Q ∧
+      (val4 r0 r1 r2 r3 * R) % Q = (val4 x0 x1 x2 x3 * val4 y0 y1 y2 y3) % Q :=
+  mul_ok' z0 z1 z2 z3 x0 x1 x2 x3 y0 y1 y2 y3 hx0 hx1 hx2 hx3 hy0 hy1 hy2 hy3 hy
+
+/-! ### leaving the Montgomery domain -/
+
+theorem fm_lin (z0 z1 z2 z3 m c c1 u0 c2 u1 c3 u2 : Nat)
+    (A2 : 0 + c * W = m * 4891460686036598785 + z0)
+    (A4 : u0 + c1 * W = m * 2896914383306846353 + z1 + c)
+    (A6 : u1 + c2 * W = m * 13281191951274694749 + z2 + c1)
+    (A8 : u2 + c3 * W = m * 3486998266802970665 + z3 + c2) :
+    val4 u0 u1 u2 c3 * W = val4 z0 z1 z2 z3 + m * Q := by
+  simp only [val4, Q, W] at *
+  omega
+
+/-- one round of the Montgomery reduction in `fromMont` -/
+theorem fm_round_spec (z0 z1 z2 z3 : Nat) (hz0 : z0 < W) (hz1 : z1 < W) (hz2 : z2 < W) (hz3 : z3 < W) :
+    ∃ c1 u0 c2 u1 c3 u2,
+      madd2 ((z0 * 14042775128853446655) % W) 2896914383306846353 z1
+        (madd0 ((z0 * 14042775128853446655) % W) 4891460686036598785 z0) = (c1, u0) ∧
+      madd2 ((z0 * 14042775128853446655) % W) 13281191951274694749 z2 c1 = (c2, u1) ∧
+      madd2 ((z0 * 14042775128853446655) % W) 3486998266802970665 z3 c2 = (c3, u2) ∧
+      u0 < W ∧ u1 < W ∧ u2 < W ∧ c3 < W ∧
+      ∃ m, m < W ∧ val4 u0 u1 u2 c3 * W = val4 z0 z1 z2 z3 + m * Q := by
+  have hm : (z0 * 14042775128853446655) % W < W := Nat.mod_lt _ (by decide)
+  generalize hmd : (z0 * 14042775128853446655) % W = m at *
+  obtain ⟨hc, l0, hl0, A2⟩ := madd0_spec m 4891460686036598785 z0 hm (by decide) hz0
+  generalize madd0 m 4891460686036598785 z0 = c at *
+  obtain ⟨c1, u0, e4, hc1, hu0, A4⟩ := madd2_spec m 2896914383306846353 z1 c hm (by decide) hz1 hc
+  obtain ⟨c2, u1, e6, hc2, hu1, A6⟩ := madd2_spec m 13281191951274694749 z2 c1 hm (by decide) hz2 hc1
+  obtain ⟨c3, u2, e8, hc3, hu2, A8⟩ := madd2_spec m 3486998266802970665 z3 c2 hm (by decide) hz3 hc2
+  have hl : l0 = 0 := mont_low_zero z0 l0 c m hmd.symm hl0 A2
+  subst hl
+  exact ⟨c1, u0, c2, u1, c3, u2, e4, e6, e8, hu0, hu1, hu2, hc3, m, hm,
+    fm_lin z0 z1 z2 z3 m c c1 u0 c2 u1 c3 u2 A2 A4 A6 A8⟩
+
+theorem fm_chain (Z Z1 Z2 Z3 Z4 m0 m1 m2 m3 : Nat)
+    (E0 : Z1 * W = Z + m0 * Q) (E1 : Z2 * W = Z1 + m1 * Q)
+    (E2 : Z3 * W = Z2 + m2 * Q) (E3 : Z4 * W = Z3 + m3 * Q) :
+    Z4 * R = Z + val4 m0 m1 m2 m3 * Q := by
+  simp only [val4, R]
+  linear_combination (W ^ 3) * E3 + (W ^ 2) * E2 + W * E1 + E0
+
+theorem fm_bound (Z4 Z M : Nat) (h : Z4 * R = Z + M * Q) (hZ : Z < R) (hM : M < R) : Z4 < 2 * Q := by
+  simp only [Q, R, W] at *; omega
+
+/-- `fromMont` divides by `R` modulo `q`; the operand may be any four words -/
+theorem fromMont_ok (z0 z1 z2 z3 : Nat) (hz0 : z0 < W) (hz1 : z1 < W) (hz2 : z2 < W) (hz3 : z3 < W) :
+    ∃ r0 r1 r2 r3, fromMontGeneric z0 z1 z2 z3 = (r0, r1, r2, r3) ∧
+      r0 < W ∧ r1 < W ∧ r2 < W ∧ r3 < W ∧ val4 r0 r1 r2 r3 < Q ∧
+      (val4 r0 r1 r2 r3 * R) % Q = val4 z0 z1 z2 z3 % Q := by
+  obtain ⟨c1, t0, c2, t1, t3, t2, e01, e02, e03, ht0, ht1, ht2, ht3, m0, hm0, E0⟩ :=
+    fm_round_spec z0 z1 z2 z3 hz0 hz1 hz2 hz3
+  obtain ⟨c1', t0', c2', t1', t3', t2', e11, e12, e13, ht0', ht1', ht2', ht3', m1, hm1, E1⟩ :=
+    fm_round_spec t0 t1 t2 t3 ht0 ht1 ht2 ht3
+  obtain ⟨c1'', t0'', c2'', t1'', t3'', t2'', e21, e22, e23, ht0'', ht1'', ht2'', ht3'', m2, hm2, E2⟩ :=
+    fm_round_spec t0' t1' t2' t3' ht0' ht1' ht2' ht3'
+  obtain ⟨d1, w0, d2, w1, w3, w2, e31, e32, e33, hw0, hw1, hw2, hw3, m3, hm3, E3⟩ :=
+    fm_round_spec t0'' t1'' t2'' t3'' ht0'' ht1'' ht2'' ht3''
+  have hE : fromMontGeneric z0 z1 z2 z3 = reduceGeneric w0 w1 w2 w3 := by
+    limb_reduce_eq [fromMontGeneric] w0 w1 w2 w3
+  have hch := fm_chain _ _ _ _ _ m0 m1 m2 m3 E0 E1 E2 E3
+  have hb := fm_bound _ _ _ hch (val4_lt z0 z1 z2 z3 hz0 hz1 hz2 hz3) (val4_lt m0 m1 m2 m3 hm0 hm1 hm2 hm3)
+  obtain ⟨r0, r1, r2, r3, he, g0, g1, g2, g3, hr⟩ := reduce_ok w0 w1 w2 w3 hw0 hw1 hw2 hw3 hb
+  refine ⟨r0, r1, r2, r3, hE.trans he, g0, g1, g2, g3, ?_, ?_⟩
+  · rw [hr]; exact Nat.mod_lt _ (by decide)
+  · exact mod_of_mont _ _ _ _ hch hr
+
+/-! ### aliasing: every variant is the base kernel on the shared cells -/
+
+theorem add_zx (a0 a1 a2 a3 z0 z1 z2 z3 y0 y1 y2 y3 : Nat) :
+    addGeneric_zx z0 z1 z2 z3 y0 y1 y2 y3 = addGeneric a0 a1 a2 a3 z0 z1 z2 z3 y0 y1 y2 y3 := rfl
+theorem add_zy (a0 a1 a2 a3 z0 z1 z2 z3 x0 x1 x2 x3 : Nat) :
+    addGeneric_zy z0 z1 z2 z3 x0 x1 x2 x3 = addGeneric a0 a1 a2 a3 x0 x1 x2 x3 z0 z1 z2 z3 := rfl
+theorem add_xy (z0 z1 z2 z3 x0 x1 x2 x3 : Nat) :
+    addGeneric_xy z0 z1 z2 z3 x0 x1 x2 x3 = addGeneric z0 z1 z2 z3 x0 x1 x2 x3 x0 x1 x2 x3 := rfl
+theorem add_zxy (a0 a1 a2 a3 z0 z1 z2 z3 : Nat) :
+    addGeneric_zxy z0 z1 z2 z3 = addGeneric a0 a1 a2 a3 z0 z1 z2 z3 z0 z1 z2 z3 := rfl
+theorem double_zx (a0 a1 a2 a3 z0 z1 z2 z3 : Nat) :
+    doubleGeneric_zx z0 z1 z2 z3 = doubleGeneric a0 a1 a2 a3 z0 z1 z2 z3 := rfl
+theorem sub_zx (a0 a1 a2 a3 z0 z1 z2 z3 y0 y1 y2 y3 : Nat) :
+    subGeneric_zx z0 z1 z2 z3 y0 y1 y2 y3 = subGeneric a0 a1 a2 a3 z0 z1 z2 z3 y0 y1 y2 y3 := rfl
+theorem sub_zy (a0 a1 a2 a3 z0 z1 z2 z3 x0 x1 x2 x3 : Nat) :
+    subGeneric_zy z0 z1 z2 z3 x0 x1 x2 x3 = subGeneric a0 a1 a2 a3 x0 x1 x2 x3 z0 z1 z2 z3 := rfl
+theorem sub_xy (z0 z1 z2 z3 x0 x1 x2 x3 : Nat) :
+    subGeneric_xy z0 z1 z2 z3 x0 x1 x2 x3 = subGeneric z0 z1 z2 z3 x0 x1 x2 x3 x0 x1 x2 x3 := rfl
+theorem sub_zxy (a0 a1 a2 a3 z0 z1 z2 z3 : Nat) :
+    subGeneric_zxy z0 z1 z2 z3 = subGeneric a0 a1 a2 a3 z0 z1 z2 z3 z0 z1 z2 z3 := rfl
+theorem neg_zx (a0 a1 a2 a3 z0 z1 z2 z3 : Nat) :
+    negGeneric_zx z0 z1 z2 z3 = negGeneric a0 a1 a2 a3 z0 z1 z2 z3 := rfl
+theorem mul_zx (a0 a1 a2 a3 z0 z1 z2 z3 y0 y1 y2 y3 : Nat) :
+    mulGeneric_zx z0 z1 z2 z3 y0 y1 y2 y3 = mulGeneric a0 a1 a2 a3 z0 z1 z2 z3 y0 y1 y2 y3 := rfl
+theorem mul_zy (a0 a1 a2 a3 z0 z1 z2 z3 x0 x1 x2 x3 : Nat) :
+    mulGeneric_zy z0 z1 z2 z3 x0 x1 x2 x3 = mulGeneric a0 a1 a2 a3 x0 x1 x2 x3 z0 z1 z2 z3 := rfl
+theorem mul_xy (z0 z1 z2 z3 x0 x1 x2 x3 : Nat) :
+    mulGeneric_xy z0 z1 z2 z3 x0 x1 x2 x3 = mulGeneric z0 z1 z2 z3 x0 x1 x2 x3 x0 x1 x2 x3 := rfl
+theorem mul_zxy (a0 a1 a2 a3 z0 z1 z2 z3 : Nat) :
+    mulGeneric_zxy z0 z1 z2 z3 = mulGeneric a0 a1 a2 a3 z0 z1 z2 z3 z0 z1 z2 z3 := rfl
+
+/-! ### constants of the Montgomery representation -/
+
+def Rinv : Nat := 9915499612839321149637521777990102151350674507940716049588462388200839649614
+
+theorem R_Rinv : (R * Rinv) % Q = 1 := by decide
+
+/-- `R` is invertible modulo `q` -/
+theorem cancel_R (a b : Nat) (h : (a * R) % Q = (b * R) % Q) : a % Q = b % Q := by
+  have h1 : (a * R * Rinv) % Q = (b * R * Rinv) % Q := by
+    rw [Nat.mul_mod (a * R), h, ← Nat.mul_mod]
+  have h2 : ∀ c, (c * R * Rinv) % Q = c % Q := fun c => by
+    rw [Nat.mul_assoc, Nat.mul_mod, R_Rinv, Nat.mul_one, Nat.mod_mod]
+  rwa [h2, h2] at h1
+
+theorem rSquare_val : val4 1997599621687373223 6052339484930628067 10108755138030829701 150537098327114917
+    = (R * R) % Q := by decide
+
+theorem val4_word (v : Nat) : val4 v 0 0 0 = v := by simp [val4]
+
+theorem setUint64_eq (v : Nat) : setUint64 v = mulGeneric 0 0 0 0 v 0 0 0
+    1997599621687373223 6052339484930628067 10108755138030829701 150537098327114917 := rfl
+
+/-- `SetUint64 v` is the Montgomery form of `v` -/
+theorem setUint64_ok (v : Nat) (hv : v < W) :
+    ∃ r0 r1 r2 r3, setUint64 v = (r0, r1, r2, r3) ∧ r0 < W ∧ r1 < W ∧ r2 < W ∧ r3 < W ∧
+      val4 r0 r1 r2 r3 = (v * R) % Q := by
+  obtain ⟨r0, r1, r2, r3, he, g0, g1, g2, g3, hlt, hr⟩ :=
+    mul_ok' 0 0 0 0 v 0 0 0 1997599621687373223 6052339484930628067 10108755138030829701 150537098327114917
+      hv (by decide) (by decide) (by decide) (by decide) (by decide) (by decide) (by decide)
+      (by rw [rSquare_val]; exact Nat.mod_lt _ (by decide))
+  refine ⟨r0, r1, r2, r3, (setUint64_eq v).trans he, g0, g1, g2, g3, ?_⟩
+  rw [val4_word, rSquare_val, Nat.mul_mod_mod, ← Nat.mul_assoc] at hr
+  have := cancel_R _ _ hr
+  rwa [Nat.mod_eq_of_lt hlt] at this
+
+/-! ### multiplication by a word constant, butterfly -/
+
+theorem mulByConstant_ok (z0 z1 z2 z3 c : Nat)
+    (hz0 : z0 < W) (hz1 : z1 < W) (hz2 : z2 < W) (hz3 : z3 < W) (hz : val4 z0 z1 z2 z3 < Q) (hc : c < W) :
+    ∃ r0 r1 r2 r3, mulByConstant z0 z1 z2 z3 c = (r0, r1, r2, r3) ∧
+      r0 < W ∧ r1 < W ∧ r2 < W ∧ r3 < W ∧ val4 r0 r1 r2 r3 = (c * val4 z0 z1 z2 z3) % Q := by
+  by_cases h0 : c = 0
+  · exact ⟨0, 0, 0, 0, by limb_eval [mulByConstant], by decide, by decide, by decide, by decide, by
+      rw [h0, Nat.zero_mul]; decide⟩
+  by_cases h1 : c = 1
+  · exact ⟨z0, z1, z2, z3, by limb_eval [mulByConstant], hz0, hz1, hz2, hz3, by
+      rw [h1, Nat.one_mul, Nat.mod_eq_of_lt hz]⟩
+  -- the doubling used by the branches 2, 3, 5
+  obtain ⟨d0, d1, d2, d3, ed, hd0, hd1, hd2, hd3, hd⟩ := double_ok 0 0 0 0 z0 z1 z2 z3 hz0 hz1 hz2 hz3 hz
+  rw [← double_zx 0 0 0 0] at ed
+  have hdlt : val4 d0 d1 d2 d3 < Q := by rw [hd]; exact Nat.mod_lt _ (by decide)
+  by_cases h2 : c = 2
+  · exact ⟨d0, d1, d2, d3, by limb_eval [mulByConstant], hd0, hd1, hd2, hd3, by rw [h2]; exact hd⟩
+  by_cases h3 : c = 3
+  · obtain ⟨r0, r1, r2, r3, er, g0, g1, g2, g3, hr⟩ :=
+      add_ok 0 0 0 0 d0 d1 d2 d3 z0 z1 z2 z3 hd0 hd1 hd2 hd3 hz0 hz1 hz2 hz3 hdlt hz
+    rw [← add_zx 0 0 0 0] at er
+    refine ⟨r0, r1, r2, r3, by limb_eval [mulByConstant], g0, g1, g2, g3, ?_⟩
+    rw [hr, hd, h3]; generalize val4 z0 z1 z2 z3 = Z; simp only [Q]; omega
+  by_cases h5 : c = 5
+  · obtain ⟨f0, f1, f2, f3, ef, hf0, hf1, hf2, hf3, hf⟩ := double_ok 0 0 0 0 d0 d1 d2 d3 hd0 hd1 hd2 hd3 hdlt
+    rw [← double_zx 0 0 0 0] at ef
+    have hflt : val4 f0 f1 f2 f3 < Q := by rw [hf]; exact Nat.mod_lt _ (by decide)
+    obtain ⟨r0, r1, r2, r3, er, g0, g1, g2, g3, hr⟩ :=
+      add_ok 0 0 0 0 f0 f1 f2 f3 z0 z1 z2 z3 hf0 hf1 hf2 hf3 hz0 hz1 hz2 hz3 hflt hz
+    rw [← add_zx 0 0 0 0] at er
+    refine ⟨r0, r1, r2, r3, by limb_eval [mulByConstant], g0, g1, g2, g3, ?_⟩
+    rw [hr, hf, hd, h5]; generalize val4 z0 z1 z2 z3 = Z; simp only [Q]; omega
+  · -- generic branch: Montgomery product with `SetUint64 c`
+    obtain ⟨s0, s1, s2, s3, es, hs0, hs1, hs2, hs3, hs⟩ := setUint64_ok c hc
+    have hslt : val4 s0 s1 s2 s3 < Q := by rw [hs]; exact Nat.mod_lt _ (by decide)
+    obtain ⟨r0, r1, r2, r3, er, g0, g1, g2, g3, hlt, hr⟩ :=
+      mul_ok' 0 0 0 0 z0 z1 z2 z3 s0 s1 s2 s3 hz0 hz1 hz2 hz3 hs0 hs1 hs2 hs3 hslt
+    rw [← mul_zx 0 0 0 0] at er
+    refine ⟨r0, r1, r2, r3, by limb_eval [mulByConstant], g0, g1, g2, g3, ?_⟩
+    rw [hs, Nat.mul_mod_mod, ← Nat.mul_assoc] at hr
+    have := cancel_R _ _ hr
+    rw [Nat.mod_eq_of_lt hlt] at this
+    rw [this, Nat.mul_comm]
+
+theorem butterfly_ok (a0 a1 a2 a3 b0 b1 b2 b3 : Nat)
+    (ha0 : a0 < W) (ha1 : a1 < W) (ha2 : a2 < W) (ha3 : a3 < W)
+    (hb0 : b0 < W) (hb1 : b1 < W) (hb2 : b2 < W) (hb3 : b3 < W)
+    (ha : val4 a0 a1 a2 a3 < Q) (hb : val4 b0 b1 b2 b3 < Q) :
+    ∃ r0 r1 r2 r3 s0 s1 s2 s3,
+      butterflyGeneric a0 a1 a2 a3 b0 b1 b2 b3 = (r0, r1, r2, r3, s0, s1, s2, s3) ∧
+      r0 < W ∧ r1 < W ∧ r2 < W ∧ r3 < W ∧ s0 < W ∧ s1 < W ∧ s2 < W ∧ s3 < W ∧
+      val4 r0 r1 r2 r3 = (val4 a0 a1 a2 a3 + val4 b0 b1 b2 b3) % Q ∧
+      val4 s0 s1 s2 s3 = (val4 a0 a1 a2 a3 + (Q - val4 b0 b1 b2 b3)) % Q := by
+  obtain ⟨r0, r1, r2, r3, er, g0, g1, g2, g3, hr⟩ :=
+    add_ok 0 0 0 0 a0 a1 a2 a3 b0 b1 b2 b3 ha0 ha1 ha2 ha3 hb0 hb1 hb2 hb3 ha hb
+  rw [← add_zx 0 0 0 0] at er
+  obtain ⟨s0, s1, s2, s3, es, k0, k1, k2, k3, hs⟩ :=
+    sub_ok 0 0 0 0 a0 a1 a2 a3 b0 b1 b2 b3 ha0 ha1 ha2 ha3 hb0 hb1 hb2 hb3 ha hb
+  rw [← sub_zy 0 0 0 0] at es
+  exact ⟨r0, r1, r2, r3, s0, s1, s2, s3, by limb_eval [butterflyGeneric],
+    g0, g1, g2, g3, k0, k1, k2, k3, hr, hs⟩
 
 end I3.Limbs
